@@ -121,7 +121,14 @@ def _finish_violation(scn: Any, modname: str, desc: Any, ex: sched.Execution, v:
             v["detail"] = x["detail"]
             break
     lw = getattr(scn, "logical_windows", None)
-    v["signature"]["windows"] = lw(exm) if lw is not None else windows(exm)
+    wins = lw(exm) if lw is not None else windows(exm)
+    if v["signature"].pop("_no_windows", False):
+        # the scenario classified the cause itself (schedule-independent signature); the number of
+        # deviations of the minimised schedule stays part of the identity
+        v["detail"]["windows"] = wins
+        v["signature"]["deviations"] = exm.deviations
+    else:
+        v["signature"]["windows"] = wins
     v["detail"]["code_windows"] = windows(exm)
     v["detail"]["schedule"] = [
         {"at": i, "thread": p.tid, "kind": p.kind, "info": p.info, "ran_instead": p.cands[p.chosen]}
